@@ -1,7 +1,7 @@
 """Contracts of the SequenceParameters forwarders: same postcondition as the backend method, stated over
 self.SeqObj; pH-taking getters reject pH outside [0,14] before the backend is called (C09.c)."""
 from .common import SEQ, mk_sequence
-from . import seq_core, seq_comp, seq_linear, seq_kappa
+from . import seq_core, seq_comp, seq_linear, seq_kappa, seq_phos
 
 SP = 'localcider/sequenceParameters.py:SequenceParameters.'
 KB = SEQ + ':Sequence.'
@@ -23,13 +23,13 @@ def mk_seqparams(**kw):
 
 
 def backend_contract(name):
-    for m in (seq_core, seq_comp, seq_linear, seq_kappa):
+    for m in (seq_core, seq_comp, seq_linear, seq_kappa, seq_phos):
         if KB + name in m.CONTRACT:
             return m.CONTRACT[KB + name]
     raise KeyError(name)
 
 
-def forward(spname, backend, with_ph=False, extra=None, rename=None):
+def forward(spname, backend, with_ph=False, extra=None, rename=None, selfb=None):
     b = backend_contract(backend)
 
     def rn(e):
@@ -38,7 +38,7 @@ def forward(spname, backend, with_ph=False, extra=None, rename=None):
         for a, bb in (rename or {}).items():
             e = e.replace(a, bb)
         return e
-    c = dict(self=mk_seqparams(), modifies=[], params={(rename or {}).get(k, k): v for k, v in b.get('params', {}).items()},
+    c = dict(self=selfb or mk_seqparams(), modifies=[], params={(rename or {}).get(k, k): v for k, v in b.get('params', {}).items()},
              ensures=[rn(e) for e in b.get('ensures', [])], requires=[rn(e) for e in b.get('requires', [])])
     if b.get('raises'):
         c['raises'] = [(en, rn(cond)) for en, cond in b['raises']]
@@ -81,3 +81,21 @@ for sp_, be_ in [('get_linear_sigma', 'linearDistOfSigma'), ('get_linear_NCPR', 
 
 for sp_, be_ in [('get_kappa', 'kappa'), ('get_Omega_sequence', 'Omega_seq'), ('get_deltaMax', 'deltaMax')]:
     forward(sp_, be_)
+
+
+def mk_seqparams_phos(nsites=None, **kw):
+    inner = seq_phos.mk_seq_phos(nsites, prefix='self.SeqObj', **kw)
+
+    def build(it, case):
+        from pyvc.values import Obj
+        mod = it.sb.load('localcider.sequenceParameters')
+        o = Obj(mod.SequenceParameters, 'self')
+        o.fields['SeqObj'] = inner(it, case)
+        return o
+    build.inv = 'And(seq_inv(self.SeqObj), phos_inv(self.SeqObj.phosphosites, self.SeqObj.seq, self.SeqObj.len))'
+    return build
+
+
+for sp_, be_, rn_ in [('set_phosphosites', 'setPhosPhoSites', {'listOfPsites': 'phosphosites'}), ('clear_phosphosites', 'clear_phosphosites', None),
+                      ('get_phosphosites', 'get_phosphosites', None), ('get_phosphosequence', 'get_phosphosequence', None)]:
+    forward(sp_, be_, rename=rn_, selfb=mk_seqparams_phos())
